@@ -895,6 +895,9 @@ func (w *World) deliver(kind string) {
 	if kind == "deployments" || kind == "pools" {
 		defer w.trackFilterWindows()
 	}
+	if kind == "deployments" || kind == "statefulsets" || kind == "cr:tapps" {
+		defer w.modelViewChanged()
+	}
 	if kind == "pools" {
 		name := ev.Key[strings.Index(ev.Key, "/")+1:]
 		if ev.New == nil {
